@@ -41,6 +41,9 @@ type Conn struct {
 	hasPassword bool
 	// closeMutex guards isClosed: Stop and the connection goroutine may close concurrently.
 	closeMutex sync.Mutex
+	// stateMutex guards id, authrized, username, password and hasPassword: the connection is
+	// visible through the connection registry while its own goroutine executes SELECT and AUTH.
+	stateMutex sync.RWMutex
 }
 
 func newConnWith(conn net.Conn, tlsState *tls.ConnectionState) *Conn {
@@ -75,42 +78,58 @@ func (conn *Conn) Close() error {
 
 // SetDatabase sets the selected database number to the connection.
 func (conn *Conn) SetDatabase(id DatabaseID) {
+	conn.stateMutex.Lock()
+	defer conn.stateMutex.Unlock()
 	conn.id = id
 }
 
 // Database returns the current selected database number in the connection.
 func (conn *Conn) Database() DatabaseID {
+	conn.stateMutex.RLock()
+	defer conn.stateMutex.RUnlock()
 	return conn.id
 }
 
 // SetAuthrized sets the authrized flag to the connection.
 func (conn *Conn) SetAuthrized(authrized bool) {
+	conn.stateMutex.Lock()
+	defer conn.stateMutex.Unlock()
 	conn.authrized = authrized
 }
 
 // IsAuthrized returns true if the connection is authrized.
 func (conn *Conn) IsAuthrized() bool {
+	conn.stateMutex.RLock()
+	defer conn.stateMutex.RUnlock()
 	return conn.authrized
 }
 
 // SetUserName sets the user name to the connection.
 func (conn *Conn) SetUserName(username string) {
+	conn.stateMutex.Lock()
+	defer conn.stateMutex.Unlock()
 	conn.username = username
 }
 
 // UserName returns the user name and true if the connection has the user name.
 func (conn *Conn) UserName() (string, bool) {
+	conn.stateMutex.RLock()
+	defer conn.stateMutex.RUnlock()
 	return conn.username, 0 < len(conn.username)
 }
 
 // SetPassword sets the password to the connection.
 func (conn *Conn) SetPassword(password string) {
+	conn.stateMutex.Lock()
+	defer conn.stateMutex.Unlock()
 	conn.password = password
 	conn.hasPassword = true
 }
 
 // Password returns the password and true if the connection has the password.
 func (conn *Conn) Password() (string, bool) {
+	conn.stateMutex.RLock()
+	defer conn.stateMutex.RUnlock()
 	return conn.password, conn.hasPassword
 }
 
